@@ -196,7 +196,7 @@ class GhostParameters:
         return Parameter(label=label.replace(":", "_"), value=1.0)
 
 
-def build_instance(cls, size=2, optional_set=True, shared=False):
+def build_instance(cls, size=2, optional_set=True, shared=False, prefix=""):
     """An instance with distinct labels in every declared reference position (`shared`: items of different
     kinds carry the same labels - labels are unique per kind only)."""
     from glotaran.model.item import META_ALIAS
@@ -215,7 +215,7 @@ def build_instance(cls, size=2, optional_set=True, shared=False):
             kwargs[f.name] = f.default.factory() if isinstance(f.default, attrs.Factory) else f.default
             continue
         name = f.metadata.get(META_ALIAS, f.name) if kind == "model" else f.name
-        labs = [f"{'ref' if kind == 'model' else 'par'}.{f.name}.{i}" for i in range(size if struct else 1)]
+        labs = [f"{prefix}{'ref' if kind == 'model' else 'par'}.{f.name}.{i}" for i in range(size if struct else 1)]
         if shared and kind == "model":
             labs = [f"shared.{i}" for i in range(size if struct else 1)]
         if struct == "list":
@@ -550,5 +550,69 @@ class Generated(Contract):
                             continue
                         if not any(f"'{val}_typo'" in s for s in iss):
                             bad = bad or (gname, nc, irf, f"misspelled reference {'/'.join(map(str, path))} = {val}_typo not reported: {iss}")
+        out.append(self._mixed_kinds())
         out.append({"name": "bounded_generator_models_single_reference_or_parameter_removed", "ok": bad is None, "case": f"{n} model/parameter variants of the generator models", "function": "Model.get_issues", "witness": None if bad is None else {"generator": bad[0], "compartments": bad[1], "irf": bad[2], "why": bad[3]}, "detail": "bounded stand-in: every generator model, each reference misspelled / parameter removed in turn"})
         return out
+
+    def _mixed_kinds(self):
+        """B: label collection and parameter generation for containers holding items of different classes, in both
+        orders (a container's items are heterogeneous: decay next to damped-oscillation, `one` next to `gaussian`)."""
+        from glotaran.model import Model
+        from glotaran.model.clp_constraint import ClpConstraint
+        from glotaran.model.clp_penalties import ClpPenalty
+        from glotaran.model.clp_relation import ClpRelation
+        from glotaran.model.item import ParameterIssue
+        from glotaran.model.megacomplex import Megacomplex
+        from glotaran.model.weight import Weight
+
+        cl = all_item_classes()
+        mcs = [c for c in cl.values() if issubclass(c, Megacomplex) and c is not Megacomplex]
+        M = Model.create_class_from_megacomplexes(mcs)
+        import glotaran.builtin.megacomplexes.decay.irf as irf_mod
+        import glotaran.builtin.megacomplexes.spectral.shape as shape_mod
+        from glotaran.builtin.megacomplexes.decay.initial_concentration import InitialConcentration
+        from glotaran.builtin.megacomplexes.decay.k_matrix import KMatrix
+
+        fams = {
+            "megacomplex": ("dict", [c for c in mcs]),
+            "irf": ("dict", [c for c in cl.values() if issubclass(c, irf_mod.Irf) and c is not irf_mod.Irf]),
+            "shape": ("dict", [c for c in cl.values() if issubclass(c, shape_mod.SpectralShape) and c is not shape_mod.SpectralShape]),
+            "k_matrix": ("dict", [KMatrix]),
+            "initial_concentration": ("dict", [InitialConcentration]),
+            "clp_penalties": ("list", [c for c in cl.values() if issubclass(c, ClpPenalty) and c is not ClpPenalty]),
+            "clp_constraints": ("list", [c for c in cl.values() if issubclass(c, ClpConstraint) and c is not ClpConstraint]),
+            "clp_relations": ("list", [ClpRelation]),
+            "weights": ("list", [Weight]),
+        }
+        bad, n = None, 0
+        for cont, (struct, classes) in fams.items():
+            for A in classes:
+                for B in classes:
+                    a, pa = build_instance(A, prefix="a_")
+                    b, pb = build_instance(B, prefix="b_")
+                    if a is None or b is None:
+                        continue
+                    if struct == "dict":
+                        a, b = attrs.evolve(a, label="a"), attrs.evolve(b, label="b")
+                    # a parameter-bearing container of another kind next to it
+                    km, pk = build_instance(KMatrix, prefix="k_")
+                    kw = {cont: {"a": a, "b": b} if struct == "dict" else [a, b]}
+                    if cont != "k_matrix":
+                        kw["k_matrix"] = {"k": attrs.evolve(km, label="k")}
+                    else:
+                        pk = []
+                    want = {lab for kind, _, lab, _ in pa + pb + pk if kind == "param"}
+                    n += 1
+                    try:
+                        m = M(**kw)
+                        got = set(m.get_parameter_labels())
+                        params = m.generate_parameters()
+                        missing = [i.to_string() for i in m.get_issues(parameters=params) if isinstance(i, ParameterIssue)]
+                    except Exception as e:
+                        bad = bad or (cont, A.__name__, B.__name__, f"raised {type(e).__name__}: {e}")
+                        continue
+                    if got != want:
+                        bad = bad or (cont, A.__name__, B.__name__, f"get_parameter_labels misses {sorted(want - got)} / invents {sorted(got - want)}")
+                    elif missing:
+                        bad = bad or (cont, A.__name__, B.__name__, f"generated parameters leave issues: {missing[:3]}")
+        return {"name": "bounded_parameter_labels_complete_for_mixed_item_classes_in_any_order", "ok": bad is None and n > 0, "case": f"{n} ordered pairs of item classes per container", "function": "Model.get_parameter_labels", "witness": None if bad is None else {"container": bad[0], "first": bad[1], "second": bad[2], "why": bad[3]}, "detail": "bounded stand-in: every ordered pair of builtin item classes of a container, labels distinct per item"}
